@@ -8,3 +8,5 @@ import Dashu.Props.GenShiftHeap
 #print axioms Dashu.Props.GenShiftHeap.gen_shl_large_ref
 #print axioms Dashu.Props.GenShiftHeap.gen_shl_large
 #print axioms Dashu.Props.GenShiftHeap.gen_shr_large
+#print axioms Dashu.Props.GenShiftHeap.gen_shr_large_ref
+#print axioms Dashu.Props.GenShiftHeap.gen_shr_heap_forms
